@@ -104,7 +104,10 @@ def _tables(U):
     U.run(body, check_feasible=False)
 
 
-@unit("C08", "Transform.__call__ / TransformProduct on symbolic tensors", scope="shape:2x3x3 complex tensors; all pre-defined transforms", expect_min=3)
+def _transform_unit(prop="C08"):
+    return unit(prop, "Transform.__call__ / TransformProduct on symbolic tensors", scope="shape:2x3x3 complex tensors; all pre-defined transforms", expect_min=3)(_transform)
+
+
 def _transform(U):
     g = dict(np=Shim())
     T = U.klass(F_PS, "Transform", globs=g, rewrite_comps=False)
@@ -142,6 +145,9 @@ def _transform(U):
                  and TP([T(), T(factor=-1)]).factor == -1 and TP([T(factor=-1), T(factor=-1)]).factor == 1 and TP([T(), T(factor=-1), T(factor=-1)]).factor == 1
                  and TP([T(conj=True), T(factor=-1, conj=True)]).conj)
     U.run(body, check_feasible=False)
+
+
+_transform_unit()
 
 
 # the parity every formula class must declare: base quantity (TR, Inv) and the number of k-derivatives it carries
